@@ -685,6 +685,19 @@ def rule_D10(text):
     return re.sub(r'for (\w+) in \(([^()]*(?:\([^()]*\)[^()]*)*?)\.\.([^()]*(?:\([^()]*\)[^()]*)*?)\)\.rev\(\) \{', rep, text), n
 
 
+def rule_D11(text):
+    """for (K, V) in E.keys_values() {  ->  for verif_q in 0..E.len() { let (K, V) = E.get_by_raw_index(verif_q);
+    (SparseBinaryVec::keys_values() is `elements.iter().map(|e| (*e as usize, Octet::one()))` and get_by_raw_index(i) is
+    `(elements[i] as usize, Octet::one())`: the i-th item of the former is the latter; both one-liners are in src/sparse_vec.rs)"""
+    n = 0
+
+    def rep(m):
+        nonlocal n
+        n += 1
+        return 'for verif_q in 0..%s.len() {\n let (%s) = %s.get_by_raw_index(verif_q);' % (m.group(2), m.group(1), m.group(2))
+    return re.sub(r'for \(([^)]*)\) in ((?:[^\s{]|\[[^\]]*\])+?)\.keys_values\(\) \{', rep, text), n
+
+
 def rule_D9(text):
     """(LO..HI).map(|X| BODY).collect()   ->   { let mut verif_out = Vec::new(); let verif_hi = HI; let mut verif_k = LO;
                                                  while verif_k < verif_hi { let X = verif_k; let verif_item = BODY; verif_out.push(verif_item); verif_k += 1; } verif_out }
